@@ -19,6 +19,7 @@ def table (group : String) : Option (List (String × OpS)) :=
   | "tm" => some opsTm
   | "rand" => some opsRand
   | "text" => some opsText
+  | "cli" => some opsCli
   | _ => none
 
 def outLineS (x : Except Err (List String)) : String :=
